@@ -42,7 +42,7 @@ func c22Run(r *runCtx, id string, f []string) {
 	}
 	exporter.VerifSetPrefixes(prefix, prefix, prefix)
 	defer exporter.VerifSetPrefixes("", "", "")
-	opts := []exporter.Option{exporter.Hostname(host)}
+	opts := []exporter.Option{exporter.Hostname(host), exporter.PushInterval(5 * time.Second)}
 	if omitProg {
 		opts = append(opts, exporter.OmitProgLabel())
 	}
@@ -194,6 +194,42 @@ func c22Run(r *runCtx, id string, f []string) {
 			}
 		}
 	}
+	// the push path (writeSocketMetrics, shared by the three push targets): every record the
+	// formatter yields for a label set the property claims for that format is pushed, exactly once
+	for k, which := range []string{"graphite", "statsd", "collectd"} {
+		rec := &recordingWriter{}
+		if err := e.VerifWriteSocketMetrics(rec, which); err != nil {
+			bad = append(bad, fmt.Sprintf("pushing %s failed: %v", which, err))
+			continue
+		}
+		// one write per record
+		// (the lines of a graphite histogram record come in map order: compare them sorted)
+		norm := func(x string) string {
+			ls := strings.SplitAfter(x, "\n")
+			sort.Strings(ls)
+			return strings.Join(ls, "")
+		}
+		have := map[string]int{}
+		for _, x := range rec.writes {
+			have[norm(x)]++
+		}
+		want := map[string]int{}
+		for i, sm := range ms {
+			if sm.kind == metrics.Text || (sm.kind == metrics.Histogram && which != "graphite") {
+				continue
+			}
+			for j := range sm.lsets {
+				if f1, ok := first[fmt.Sprintf("%d/%d", i, j+1)]; ok {
+					want[norm(f1[k])]++
+				}
+			}
+		}
+		for x, n := range want {
+			if have[x] != n && len(bad) == 0 {
+				bad = append(bad, fmt.Sprintf("the %s push writes the record %q %d times, the store holds it %d times", which, x, have[x], n))
+			}
+		}
+	}
 	// handlers: one record per label set
 	for _, h := range []string{"varz", "graphite"} {
 		rw := httptest.NewRecorder()
@@ -333,6 +369,13 @@ func c22Run(r *runCtx, id string, f []string) {
 		r.trivial(id)
 	}
 	r.stat("records_" + strconv.Itoa(min(nrec, 12)/4*4) + "plus")
+}
+
+type recordingWriter struct{ writes []string }
+
+func (w *recordingWriter) Write(p []byte) (int, error) {
+	w.writes = append(w.writes, string(p))
+	return len(p), nil
 }
 
 func init() {
